@@ -436,3 +436,128 @@ theorem growsS_stable {t₁ t₂ : Table} (hs : Table.Sub t₁ t₂) (hn : Table
   exact hg.toS k
 
 end Trion.Asm
+
+/-! ## every operand position at once, and the data directives -/
+
+namespace Trion.Front
+
+/-- the getters whose operand may end as a register or an address shape (`Rn`, `[Rn]`, `[Rn + Rm]`, `[Rn ± c]`) -/
+def Kind.shape : Kind → Bool
+  | .immReg | .address | .addrOffset => true
+  | _ => false
+
+end Trion.Front
+
+namespace Trion.Asm
+open Trion
+
+/-- `GrowsS` at any getter: no condition at `Identifier / Register / SystemReg / RegSet` (not evaluated) and at
+`Immediate / Offset` (numbers); the exact condition `LeftStable` at `ImmReg / Address / AddrOffset` -/
+theorem growsS_any {t₁ t₂ : Table} (hs : Table.Sub t₁ t₂) (hn : Table.NoDef t₁) (k : Front.Kind) (a : Arg)
+    (hp : k.shape = true → LeftStableArg t₁ t₂ a) : Front.GrowsS k (frontEval t₁) (frontEval t₂) a := by
+  cases hsh : k.shape with
+  | true => exact growsS_stable hs hn k (hp hsh)
+  | false =>
+    cases hnum : k.number with
+    | true => exact growsS_number hs hn hnum a
+    | false =>
+      have hk : k.evals = false := by
+        cases k <;> simp_all [Front.Kind.shape, Front.Kind.number, Front.Kind.evals]
+      exact ⟨fun a' h => frontEval_complete_mono hs hn h, fun h => (by rw [hk] at h; cases h),
+        fun c a₁ => frontEval_not_deferred hn a c a₁⟩
+
+theorem evalIn_complete_const (t : Table) (x : Arg) (c : Int) :
+    evalIn t x = .ok (.complete (.const c)) ↔
+      ∃ ev, Simp.evaluateE (fun n => t.get n) Front.isRegister x = .ok ev (.const c) ∧ ev.cause = none := by
+  unfold evalIn
+  cases he : Simp.evaluateE (fun n => t.get n) Front.isRegister x with
+  | ok ev a' =>
+    cases hcz : ev.cause with
+    | none =>
+      simp only [hcz]
+      constructor
+      · intro h; cases h; exact ⟨ev, rfl, hcz⟩
+      · rintro ⟨ev', h, _⟩; cases h; rfl
+    | some cc =>
+      simp only [hcz]
+      constructor
+      · intro h; cases h
+      · rintro ⟨ev', h, h'⟩; cases h; rw [hcz] at h'; cases h'
+  | nosuch n a' =>
+    simp only
+    constructor
+    · intro h; cases h
+    · rintro ⟨ev', h, _⟩; cases h
+  | err e a' =>
+    simp only
+    constructor
+    · intro h; cases h
+    · rintro ⟨ev', h, _⟩; cases h
+  | panic =>
+    simp only
+    constructor
+    · intro h; cases h
+    · rintro ⟨ev', h, _⟩; cases h
+
+theorem evalIn_noSuch {t : Table} {a : Arg} {n : Bytes} {a₁ : Arg} (h : evalIn t a = .ok (.noSuch n a₁)) :
+    Simp.evaluateE (fun n => t.get n) Front.isRegister a = .nosuch n a₁ := by
+  unfold evalIn at h
+  cases he : Simp.evaluateE (fun n => t.get n) Front.isRegister a with
+  | ok ev x => rw [he] at h; cases hc : ev.cause <;> simp [hc] at h
+  | nosuch m x => rw [he] at h; cases h; rfl
+  | err e x => rw [he] at h; cases h
+  | panic => rw [he] at h; cases h
+
+/-- the retried operand of a data directive evaluates to the number `v` iff the fresh operand does — no `plain` -/
+theorem evalIn_const_retry {t₁ t₂ : Table} (hs : Table.Sub t₁ t₂) (hn : Table.NoDef t₁) {a : Arg} {n : Bytes} {a₁ : Arg}
+    (h : evalIn t₁ a = .ok (.noSuch n a₁)) (v : Int) :
+    evalIn t₂ a₁ = .ok (.complete (.const v)) ↔ evalIn t₂ a = .ok (.complete (.const v)) := by
+  rw [evalIn_complete_const, evalIn_complete_const]
+  exact Simp.const_retry (Table.sub_get hs) (Table.nodef_get hn) (evalIn_noSuch h) v none
+
+theorem DataExpr.writer_ok_const {d d' : DataExpr} {st st' : St} (h : d.writer st = .ok (d', st', .ok)) :
+    ∃ v, d.arg = .const v := by
+  unfold DataExpr.writer at h
+  split at h
+  · rename_i v hv; exact ⟨v, hv⟩
+  · cases h
+
+/-- `DataExpr::apply` completes exactly when the operand evaluates completely and the writer accepts the value -/
+theorem DataExpr.apply_completed_iff (d : DataExpr) (env : Env) (st : St) (loc : Bool) (d' : DataExpr) (st' : St) :
+    d.apply env st loc = .ok (d', st', .completed) ↔
+      ∃ a, evalArg env st d.arg = .ok (.complete a) ∧ ({ d with arg := a } : DataExpr).writer st = .ok (d', st', .ok) := by
+  unfold DataExpr.apply
+  cases he : evalArg env st d.arg with
+  | stop r =>
+    simp only
+    exact ⟨fun h => (by cases h), fun ⟨a, h, _⟩ => (by cases h)⟩
+  | ok ev =>
+    cases ev with
+    | complete a =>
+      simp only
+      cases hw : ({ d with arg := a } : DataExpr).writer st with
+      | stop r =>
+        simp only
+        exact ⟨fun h => (by cases h), fun ⟨a', h, h'⟩ => (by cases h; rw [hw] at h'; cases h')⟩
+      | ok p =>
+        obtain ⟨d2, st2, r⟩ := p
+        cases r with
+        | ok =>
+          simp only
+          constructor
+          · intro h; cases h; exact ⟨a, rfl, hw⟩
+          · rintro ⟨a', h, h'⟩; cases h; rw [hw] at h'; cases h'; rfl
+        | err l =>
+          simp only
+          exact ⟨fun h => (by cases h), fun ⟨a', h, h'⟩ => (by cases h; rw [hw] at h'; cases h')⟩
+    | deferred c a =>
+      simp only
+      exact ⟨fun h => (by cases h), fun ⟨a', h, _⟩ => (by cases h)⟩
+    | noSuch n a =>
+      simp only
+      exact ⟨fun h => (by cases loc <;> cases h), fun ⟨a', h, _⟩ => (by cases h)⟩
+    | err e a =>
+      simp only
+      exact ⟨fun h => (by cases h), fun ⟨a', h, _⟩ => (by cases h)⟩
+
+end Trion.Asm
